@@ -13,7 +13,7 @@ RULE = ("random nested programs over {with no_grad, with retain_grads} to depth 
 ASSUMPTIONS = ["for retain_grads only the two unambiguous combinations are asserted: built and differentiated inside => interior gradients kept; both "
                "outside with no retain_grad() => released",
                "requesting requires_grad=True for an integer tensor while gradients are disabled may either raise or yield a tensor that does not require grad"]
-SHARD_TIMEOUT = {"quick": 600, "thorough": 1800}
+SHARD_TIMEOUT = {"quick": 900, "thorough": 3600}
 
 
 class Boom(Exception):
